@@ -82,6 +82,14 @@ def run_case(case, explicit=False):
         for ch in case['prefix_choices']:
             ev = pick13(d.enabled(), ch)
             d.apply(ev)
+    if case.get('queued_notif') and d.sim.state == 'ESTABLISHED' and d.live():
+        # earlier in the session a handler asked the agent (through its internal queue) to send a NOTIFICATION; the agent
+        # sends it when the next KEEPALIVE arrives and - as this agent does - keeps the session; the stop that follows is
+        # judged like any other stop
+        d.sim.handler.inter_mq.put({'type': 'notification', 'msg': {'error': 6, 'sub_error': 4, 'data': b''}})
+        for _ in range(2):
+            if d.sim.state == 'ESTABLISHED' and d.live():
+                d.apply(['ka', 0])
     prefix = list(d.history)
     d.failures = []          # invariants of the prefix are C12's business
     sim, r = d.sim, d.sim.reactor
@@ -287,7 +295,7 @@ def run_shard(spec, seed, col, tier):
     def body(case):
         d, res, info = run_case(case)
         explicit = {'cfg': info['cfg'], 'prefix': info['prefix'], 'cont': info['cont'], 'quick_restart': bool(case.get('quick_restart')),
-                    'start_first': bool(case.get('start_first'))}
+                    'start_first': bool(case.get('start_first')), 'queued_notif': bool(case.get('queued_notif'))}
         col.case(explicit, info['nontrivial'], labels=['crt:%d' % info['cfg']['connect_retry'],
                                                       'stopped-in:' + _stop_state(info)])
         for sig, detail in res:
@@ -296,7 +304,8 @@ def run_shard(spec, seed, col, tier):
                                    'prefix_choices': st.lists(st.integers(0, 999), min_size=0, max_size=16),
                                    'cont_choices': st.lists(st.integers(0, 999), min_size=0, max_size=6),
                                    'quick_restart': st.sampled_from([False, False, True]),
-                                   'start_first': st.sampled_from([False, False, True])})
+                                   'start_first': st.sampled_from([False, False, True]),
+                                   'queued_notif': st.sampled_from([False, False, False, True])})
     hyp_run(col, strat, body, seed, spec['examples'])
 
 
